@@ -14,45 +14,75 @@ from harness.common import Ck, REPO, coq_list, coq_str, parse_coq_N_list, parse_
 from harness import c06_util as U
 from translate import c06_vmf as T
 from translate import c06_prog as P
+from translate import c06_lite as L
 from translate import c01_kvser
 
 MANIFEST = dict(
     technique='Rocq proof over objects generated from vmf.py by fail-closed ast translators: write templates, key tables, '
-              'displacement array shapes, entity-loop shape (round 1) and, since round 2, every export method as a structured '
-              'write program (lines, blocks, optional wrappers, conditionals, loops, calls) plus the reader configuration of row '
-              'keys and the separators/field order of outputs; the block theorem composes the string-level theorems with the C01 '
-              'KeyValues1 tokenizer/parser model; vm_compute correspondence of the escape/scanner/rounding/output/fixup models; '
-              'round-trip search on real VMF objects',
-    text='Theorems in Props/C06.v (29): the tokenizer\'s quoted-string scanner inverts escape_text for every string in both modes; '
+              'displacement array shapes, entity-loop shape (round 1); every export method as a structured write program plus the '
+              'reader configuration of row keys and the separators/field order of outputs (round 2; the separator logic is evaluated '
+              'symbolically); since round 3 the formatter of every written number, the guard of the optional multiblend arrays, an '
+              'object-level table (which attributes every written key is computed from / every looked-up key flows into, by data-flow '
+              'analysis of the parse methods and constructors) and the displacement flag tables; the block theorem composes the '
+              'string-level theorems with the C01 KeyValues1 tokenizer/parser model; vm_compute correspondence of the '
+              'escape/scanner/rounding/output/fixup/number-group-text models; round-trip search on real VMF objects',
+    text='Theorems in Props/C06.v (53): the tokenizer\'s quoted-string scanner inverts escape_text for every string in both modes; '
          'every keyvalue line whose interpolations are escaped strings, numbers or plain literals re-reads as its field values (a raw '
-         'string field does not); for every generated export program that passes prog_ok, every environment (any field contents, '
-         'any outcome of conditions, any number of loop iterations and callees) and call depth, the text written parses -- C01 '
-         'tokenizer and Keyvalues.parse model -- to exactly the tree of keys, values and child blocks the writer was given; every '
-         'written key/block name is looked up by a reader in the same block; displacement rows have exactly the length the reader '
-         'demands for power 1..4 and the reader recognises every row key written (row0..row16); output values survive as_keyvalue/'
-         'parse for fields free of the separator (both forms, extra commas in the parameter), instance:name;command names survive; '
-         'replaceNN lines and EntityFixup index bookkeeping keep up to 99 distinctly named fixups with their indexes; correctly '
-         'rounded %.6f / %g output is within 5e-7 / six significant digits; reading entity and hidden blocks in file order preserves '
-         'entity order. 83 instance obligations (per writer method, per program, per array, per power, loop shape, separators) are '
-         'regenerated from vmf.py and kernel-checked on every run. The search builds maps through the public API (all object kinds, '
-         'options minimal/disp_multiblend/preserve_ids, every tests/*.vmf) and checks text fixed point and field-by-field equality '
-         'with the stated tolerances.',
+         'string field does not); for every generated export program that passes prog_ok, every environment and call depth, the text '
+         'written parses -- C01 tokenizer and Keyvalues.parse model -- to exactly the tree of keys, values and child blocks the writer '
+         'was given; every written key/block name is looked up by a reader in the same block; for each of eight classes of the object '
+         'graph every written literal key is read into exactly the attributes its value was computed from, no attribute the reader fills '
+         'is forgotten by the writer, and the text found under a key does not depend on other attributes (no cross-talk); displacement rows '
+         'have exactly the length the reader demands for power 1..4 and the reader recognises every row key written; the multiblend '
+         'arrays are written exactly when the member their primary array carries is non-default; the 16 displacement flag values survive '
+         'the flags/subdiv tables; output values survive as_keyvalue/parse for fields free of the separator, instance:name;command names '
+         'survive; replaceNN lines and EntityFixup index bookkeeping keep up to 99 distinctly named fixups; every number of every '
+         'written line is written by a formatter that keeps the precision the property demands of that field (5e-7 absolutely, six '
+         'significant digits for face rotation / output delay / multiblend, exact for integers and flags), and the table is tight; '
+         '"x y z" in any bracket pair and "[x y z offset] scale" are taken apart into their number tokens by parse_vec_str / '
+         'UVAxis.parse, the plane triple "(a) (b) (c)" into its three parts; reading entity and hidden blocks in file order preserves entity order. '
+         '188 instance obligations (271 obligations in total with theorems, correspondences, translators, ties) are regenerated '
+         'from vmf.py / math.py and kernel-checked on every run. The search builds maps through the public API (all object kinds, options '
+         'minimal/disp_multiblend/preserve_ids, every tests/*.vmf) and checks text fixed point and field-by-field equality with the '
+         'stated tolerances.',
     note='Partial with respect to the whole-map statement: text -> KeyValues tree is proved for all export methods; tree -> object is '
-         'proved per block (keys read), per array, per output value, per fixup line, not for whole objects (no Gallina model of the '
-         'VMF object graph; Vec.from_str, UVAxis.parse, allowed_verts, flags tables, ID managers are search-only), and the number '
-         'format used by each field is not tied to the rounding theorems per field. Trusted: Coq kernel + vm_compute, '
-         'translate/c06_vmf.py and translate/c06_prog.py (key table cross-checked against really exported text on every run), the '
-         'hand field-type table (validated on real objects), the C01 KeyValues1 model (tied by C01\'s own check), CPython number '
-         'formatting being correctly rounded and producing no quote/backslash/newline, str.split/join/int/casefold as modelled. '
-         'Format limits excluded from the generator (docs/C06.md): keys that look like replaceNN / id, LF/CR in key names, the '
-         'separator character inside output fields, fixup names with a space, >99 fixups, group/visgroup membership of brush-entity '
-         'solids, 2D viewport coordinates of exactly +-65536. Known findings: "-0" text (math.format_float, C05) and cordon_enabled '
-         'without cordons.',
+         'proved per class at the level "which attribute receives which key" (flat: child lists are paired only as exported/parsed '
+         'attributes, there is no recursive Gallina object graph), per array, per output value, per fixup line, per number group; the '
+         'plane triple, allowed_verts, viewport axis selection, ID managers and membership sets are search-only; float(token) is '
+         'outside the token models. Trusted: Coq kernel + vm_compute, translate/c06_vmf.py, c06_prog.py, c06_lite.py (key table '
+         'cross-checked against really exported text, number formats against really exported numbers, on every run), the hand tables '
+         '(field types, number kinds, required precision per field, class -> methods, ARRAY_ATTRS, ALIAS_ATTRS), the C01 KeyValues1 model '
+         '(tied by C01\'s own check), CPython number formatting being correctly rounded and producing no quote/backslash/newline, '
+         'str.split/join/strip/int/casefold as modelled. Format limits excluded from the generator (docs/C06.md): keys that look like '
+         'replaceNN / id, LF/CR in key names, the separator character inside output fields, fixup names with a space, >99 fixups, '
+         'group/visgroup membership of brush-entity solids, 2D viewport coordinates of exactly +-65536. Known findings: "-0" text '
+         '(math.format_float, C05) and cordon_enabled without cordons.',
 )
+
+# The precision the property demands of every number, by (block, literal key text, index of the number in the value) of the
+# *written format* (not of the source): six significant digits for face rotation, output delay (number 0 of an output value)
+# and the multiblend / alphablend arrays; exact for integers, flags and the numbers the oracle compares exactly (written by
+# repr); 5e-7 for everything else (coordinates, texture axes, colours, viewports).
+REQUIRED_SIG6 = {('side', 'rotation', 0), ('connections', '', 0), ('multiblend', 'row', 0), ('alphablend', 'row', 0)}
+REQUIRED_EXACT = {('connections', '', 1), ('point_data', 'point', 0), ('dispinfo', 'elevation', 0), ('distances', 'row', 0),
+                  ('alphas', 'row', 0), ('triangle_tags', 'row', 0), ('allowed_verts', '10', 0), ('cordon', 'active', 0),
+                  ('cordons', 'active', 0)}
+EXACT_KEYS = {'id', 'groupid', 'visgroupid', 'visgroupshown', 'visgroupautoshown', 'activecamera', 'flags', 'power', 'subdiv',
+              'numpts', 'count', 'lightmapscale', 'smoothing_groups', 'editorbuild', 'editorversion', 'formatversion', 'mapversion',
+              'prefab', 'bshow3dgrid', 'bshowgrid', 'bshowlogicalgrid', 'bsnaptogrid', 'ngridspacing', 'ninstancevisibility'}
+
+
+def required_class(block: str, key: str, idx: int) -> str:
+    if (block, key, idx) in REQUIRED_SIG6:
+        return 'PSig6'
+    if (block, key, idx) in REQUIRED_EXACT or key in EXACT_KEYS:
+        return 'PExact'
+    return 'PAbs6'
+
 
 IMPORTS = ['Coq.NArith.NArith', 'Coq.ZArith.ZArith', 'Coq.Lists.List', 'Coq.Strings.String', 'SV.KV.KvBase', 'SV.Fmt.VmfText',
            'SV.Fmt.VmfBlocks', 'SV.Gen.VmfTemplates_gen', 'SV.Gen.VmfKeys_gen', 'SV.Gen.VmfDispSizes_gen', 'SV.Gen.VmfOrder_gen',
-           'SV.Gen.VmfProg_gen', 'SV.Fmt.VmfFields', 'SV.Gen.VmfFieldsCfg_gen', 'SV.KV.KvSym', 'SV.Gen.KVSer_gen', 'SV.Props.C06']
+           'SV.Gen.VmfProg_gen', 'SV.Fmt.VmfFields', 'SV.Gen.VmfFieldsCfg_gen', 'SV.Fmt.VmfNum', 'SV.Gen.VmfNumFmt_gen', 'SV.Fmt.VmfGuard', 'SV.Fmt.VmfLite', 'SV.Gen.VmfLite_gen', 'SV.Fmt.VmfFlags', 'SV.Gen.VmfFlags_gen', 'SV.Fmt.VmfTok', 'SV.Fmt.VmfPlane', 'SV.KV.KvSym', 'SV.Gen.KVSer_gen', 'SV.Props.C06']
 PRE = '''Import ListNotations. Open Scope string_scope.
 Fixpoint nl_eqb (a b : list N) : bool := match a, b with [], [] => true | x :: a', y :: b' => N.eqb x y && nl_eqb a' b' | _, _ => false end.
 Fixpoint bad_idx {A} (f : A -> bool) (n : N) (l : list A) : list N := match l with [] => [] | x :: r => (if f x then [] else [n]) ++ bad_idx f (n + 1)%N r end.
@@ -63,7 +93,7 @@ Fixpoint bad_idx {A} (f : A -> bool) (n : N) (l : list A) : list N := match l wi
 def corr_escape(ck: Ck) -> None:
     """escape / scan_quoted of Fmt/VmfText.v against srctools.tokenizer.escape_text and the real Tokenizer."""
     from srctools.tokenizer import Tokenizer, Token, TokenSyntaxError, escape_text
-    n = ck.budget(400, 4000)
+    n = ck.budget(300, 4000)
     alpha = ['"', '\\', '\n', '\r', '\t', 'n', 't', 'r', '/', '?', "'", ' ', 'a', 'Z', '0', '{', '}', '\x0b', '\x08', '\x0c',
              '\x07', 'é', '\U0001f600', '\x1b', ',', 'v', 'b', 'f']
     esc_cases, scan_cases = [], []
@@ -261,6 +291,179 @@ Fixpoint fxl_eqb (a b : list fixup) : bool := match a, b with [], [] => true
     ck.sample({'output_parse_case(value, Output.parse)': repr(p_cases[3]), 'fixup_init_case(input, EntityFixup order)': repr(f_cases[3])})
 
 
+def corr_tokens(ck: Ck) -> None:
+    """parse_vec / uv_parse of Fmt/VmfTok.v against math.parse_vec_str and UVAxis.parse on generated texts (number tokens from
+    a pool with pairwise different values; brackets of all kinds, doubled and mismatched; extra white space; 2..6 tokens), and
+    vec_text / uv_text against str(Vec), str(Angle), str(UVAxis) (field order and punctuation of the written text)."""
+    from srctools.math import Vec, Angle, parse_vec_str, format_float
+    from srctools.vmf import UVAxis
+    pool = ['0', '1', '-1', '0.5', '-0.25', '16384', '1e+06', '-3.5e-05', '0.000001', '123456.789', '7', '2.5']
+    val = {float(t): t for t in pool}
+    assert len(val) == len(pool)
+    n = ck.budget(200, 1500)
+    v_cases, u_cases, t_cases = [], [], []
+    for _ in range(n):
+        k = ck.rng.choice([3, 3, 3, 3, 2, 4, 1])
+        toks = [ck.rng.choice(pool) for _ in range(k)]
+        sep = [ck.rng.choice([' ', ' ', ' ', '  ', '\t']) for _ in range(k)]
+        body = ''.join(t + s for t, s in zip(toks, sep))[:-len(sep[-1])]
+        o = ck.rng.choice(['', '', '(', '[', '{', '<', '((', ' ('])
+        c = ck.rng.choice(['', '', ')', ']', '}', '>', '))', ') '])
+        text = o + body + c
+        sentinel = object()
+        r = parse_vec_str(text, sentinel, sentinel, sentinel)
+        exp = None if r[0] is sentinel else [val.get(x) for x in r]
+        if exp is not None and any(e is None for e in exp):
+            continue
+        v_cases.append((text, exp))
+        ck.count('vec_text_cases')
+        ck.hist('vec_text_shape', f'{k} tokens {o.strip() or "-"}{c.strip() or "-"}')
+        if o or c:
+            ck.seen(('vectext', text))
+        # UVAxis.parse
+        k = ck.rng.choice([5, 5, 5, 5, 4, 6])
+        toks = [ck.rng.choice(pool) for _ in range(k)]
+        form = ck.rng.choice(['std', 'std', 'std', 'nobr', 'dbl', 'sp'])
+        if form == 'std' and k >= 4:
+            text = '[' + ' '.join(toks[:4]) + '] ' + ' '.join(toks[4:])
+        elif form == 'dbl' and k >= 4:
+            text = '[[' + ' '.join(toks[:4]) + ']] ' + ' '.join(toks[4:])
+        elif form == 'sp' and k >= 4:
+            text = ' [' + '  '.join(toks[:4]) + ']   ' + ' '.join(toks[4:]) + ' '
+        else:
+            text = ' '.join(toks)
+        try:
+            u = UVAxis.parse(text)
+            exp_u = [val.get(x) for x in (u.x, u.y, u.z, u.offset, u.scale)]
+            if any(e is None for e in exp_u):
+                continue
+        except (ValueError, IndexError):
+            exp_u = None
+        u_cases.append((text, exp_u))
+        ck.count('uvaxis_text_cases')
+        ck.seen(('uvtext', text))
+        # written text
+        f5 = [ck.rng.choice(pool) for _ in range(5)]
+        x5 = [float(t) for t in f5]
+        t_cases.append(('uv', [format_float(x) for x in x5], str(UVAxis(*x5))))
+        t_cases.append(('vec', [format_float(x) for x in x5[:3]], str(Vec(*x5[:3]))))
+        ang = Angle(*x5[2:])          # the constructor normalises to [0, 360): take the tokens from the object
+        t_cases.append(('vec', [format_float(ang.pitch), format_float(ang.yaw), format_float(ang.roll)], str(ang)))
+        ck.count('number_group_text_cases', 3)
+    ck.sample({'vec_text_case(text, parse_vec_str)': list(v_cases[2]), 'uvaxis_text_case(text, UVAxis.parse)': list(u_cases[2])})
+
+    def opt3(e: Any) -> str:
+        return 'None' if e is None else 'Some (' + ', '.join(coq_str(t) for t in e) + ')'
+
+    def optl(e: Any) -> str:
+        return 'None' if e is None else 'Some ' + coq_list(coq_str(t) for t in e)
+    lit_v = coq_list(f'({coq_str(t)}, {opt3(e)})' for t, e in v_cases[:500])
+    lit_u = coq_list(f'({coq_str(t)}, {optl(e)})' for t, e in u_cases[:500])
+    lit_t = coq_list(f'(({"true" if kd == "uv" else "false"}, {coq_list(coq_str(t) for t in toks)}), {coq_str(txt)})' for kd, toks, txt in t_cases[:500])
+    pre = PRE + '''Open Scope N_scope.
+Fixpoint nll_eqb (a b : list (list N)) : bool := match a, b with [], [] => true | x :: a', y :: b' => nl_eqb x y && nll_eqb a' b' | _, _ => false end.
+Definition chk3 (s : list N) : option (list N * list N * list N) := match parse_vec s with
+  | Some (x, y, z) => if (tok_ok x && tok_ok y && tok_ok z)%bool then Some (x, y, z) else None | None => None end.
+Definition chk5 (s : list N) : option (list (list N)) := match uv_parse s with Some l => if forallb tok_ok l then Some l else None | None => None end.
+'''
+    vals = ck.coq_eval(IMPORTS, [
+        f'bad_idx (fun c : list N * option (list N * list N * list N) => match chk3 (fst c), snd c with Some (x, y, z), Some (x2, y2, z2) => '
+        f'(nl_eqb x x2 && nl_eqb y y2 && nl_eqb z z2)%bool | None, None => true | _, _ => false end) 0%N {lit_v}',
+        f'bad_idx (fun c : list N * option (list (list N)) => match chk5 (fst c), snd c with Some a, Some b => nll_eqb a b | None, None => true '
+        f'| _, _ => false end) 0%N {lit_u}',
+        f'bad_idx (fun c : (bool * list (list N)) * list N => nl_eqb (if fst (fst c) then uv_text (snd (fst c)) else join_sp (snd (fst c))) (snd c)) '
+        f'0%N {lit_t}'], name='tok', preamble=pre)
+    if vals is None:
+        ck.obligation('correspondence:number_group_text', False, 'model could not be evaluated')
+        ck.tie_broken.append('correspondence number-group text: model evaluation failed')
+        return
+    bv, bu, bt = (parse_coq_N_list(v) for v in vals)
+    ck.obligation('correspondence:vec_text_parse', not bv, f'{min(len(v_cases), 500)} texts, Fmt/VmfTok.parse_vec vs math.parse_vec_str: {len(bv)} disagreements')
+    ck.obligation('correspondence:uvaxis_text_parse', not bu, f'{min(len(u_cases), 500)} texts, Fmt/VmfTok.uv_parse vs UVAxis.parse: {len(bu)} disagreements')
+    ck.obligation('correspondence:number_group_text_written', not bt, f'{min(len(t_cases), 500)} values, Fmt/VmfTok.uv_text / join_sp vs str(UVAxis) / '
+                  f'str(Vec) / str(Angle): {len(bt)} disagreements')
+    for name, bad, cases in (('vec_text_parse', bv, v_cases), ('uvaxis_text_parse', bu, u_cases), ('number_group_text_written', bt, t_cases)):
+        if bad:
+            ck.tie_broken.append(f'correspondence {name} (Fmt/VmfTok.v vs math.py / vmf.py)')
+            ck.extra[f'{name}_disagreement'] = repr(cases[bad[0]])
+
+
+def corr_plane(ck: Ck) -> None:
+    """plane_parse of Fmt/VmfPlane.v (composed with parse_vec of Fmt/VmfTok.v) against the planes of the real Side.parse on
+    generated values of the "plane" key (well-formed, 2 or 4 groups, other outer characters, inner brackets, extra spaces),
+    and plane_text against the value of the "plane" line really written by Side.export."""
+    import io
+    from srctools.keyvalues import Keyvalues
+    from srctools.math import Vec, format_float
+    from srctools.vmf import VMF, Side
+    pool = ['0', '1', '-1', '0.5', '-0.25', '16384', '1e+06', '-3.5e-05', '0.000001', '123456.789', '7', '2.5']
+    val = {float(t): t for t in pool}
+    n = ck.budget(150, 1000)
+    vmf = VMF()
+    p_cases, w_cases = [], []
+    for _ in range(n):
+        k = ck.rng.choice([3, 3, 3, 3, 3, 2, 4])
+        groups = [' '.join(ck.rng.choice(pool) for _ in range(ck.rng.choice([3, 3, 3, 3, 2, 4]))) for _ in range(k)]
+        form = ck.rng.choice(['std', 'std', 'std', 'std', 'sq', 'wide', 'inner'])
+        if form == 'std':
+            text = '(' + ') ('.join(groups) + ')'
+        elif form == 'sq':           # the first and the last character are dropped whatever they are
+            text = '[' + ') ('.join(groups) + ']'
+        elif form == 'wide':
+            text = '(' + ')  ('.join(groups) + ')'
+        else:
+            text = '(' + ') ('.join('[' + g + ']' for g in groups) + ')'
+        try:
+            sd = Side.parse(vmf, Keyvalues('side', [Keyvalues('plane', text)]))
+            exp = [[val.get(c) for c in (v.x, v.y, v.z)] for v in sd.planes]
+            if any(t is None for g in exp for t in g):
+                continue
+        except ValueError:
+            exp = None
+        p_cases.append((text, exp))
+        ck.count('plane_text_cases')
+        ck.hist('plane_text_shape', f'{k} groups {form}')
+        ck.seen(('planetext', text))
+        vs = [Vec(*(float(ck.rng.choice(pool)) for _ in range(3))) for _ in range(3)]
+        buf = io.StringIO()
+        Side(vmf, vs).export(buf, '')
+        line = next(kv for kv in next(iter(Keyvalues.parse(buf.getvalue()))) if kv.name == 'plane')
+        w_cases.append(([' '.join(format_float(c) for c in (v.x, v.y, v.z)) for v in vs], line.value))
+        ck.count('plane_written_cases')
+    ck.sample({'plane_text_case(value, planes of Side.parse)': list(p_cases[1])})
+
+    def optg(e: Any) -> str:
+        return 'None' if e is None else 'Some ' + coq_list(coq_list(coq_str(t) for t in g) for g in e)
+    lit_p = coq_list(f'({coq_str(t)}, {optg(e)})' for t, e in p_cases[:500])
+    lit_w = coq_list(f'({coq_list(coq_str(t) for t in g)}, {coq_str(v)})' for g, v in w_cases[:500])
+    pre = PRE + '''Open Scope N_scope.
+Fixpoint nll_eqb (a b : list (list N)) : bool := match a, b with [], [] => true | x :: a', y :: b' => nl_eqb x y && nll_eqb a' b' | _, _ => false end.
+Fixpoint nlll_eqb (a b : list (list (list N))) : bool := match a, b with [], [] => true | x :: a', y :: b' => nll_eqb x y && nlll_eqb a' b' | _, _ => false end.
+Definition vec_or_zero (s : list N) : list (list N) := match parse_vec s with
+  | Some (x, y, z) => if (tok_ok x && tok_ok y && tok_ok z)%bool then [x; y; z] else [[48]; [48]; [48]] | None => [[48]; [48]; [48]] end.
+Definition plane_chk (s : list N) : option (list (list (list N))) := match plane_parse s with
+  | Some (a, b, c) => Some [vec_or_zero a; vec_or_zero b; vec_or_zero c] | None => None end.
+'''
+    vals = ck.coq_eval(IMPORTS, [
+        f'bad_idx (fun c : list N * option (list (list (list N))) => match plane_chk (fst c), snd c with Some a, Some b => nlll_eqb a b '
+        f'| None, None => true | _, _ => false end) 0%N {lit_p}',
+        f'bad_idx (fun c : list (list N) * list N => match fst c with [a; b; d] => nl_eqb (plane_text a b d) (snd c) | _ => false end) 0%N {lit_w}'],
+        name='plane', preamble=pre)
+    if vals is None:
+        ck.obligation('correspondence:plane_text', False, 'model could not be evaluated')
+        ck.tie_broken.append('correspondence plane text: model evaluation failed')
+        return
+    bp, bw = (parse_coq_N_list(v) for v in vals)
+    ck.obligation('correspondence:plane_text_parse', not bp, f'{min(len(p_cases), 500)} values of the plane key, Fmt/VmfPlane.plane_parse + '
+                  f'Fmt/VmfTok.parse_vec vs the planes of Side.parse: {len(bp)} disagreements')
+    ck.obligation('correspondence:plane_text_written', not bw, f'{min(len(w_cases), 500)} faces, Fmt/VmfPlane.plane_text vs the plane line written by '
+                  f'Side.export: {len(bw)} disagreements')
+    for name, bad, cases in (('plane_text_parse', bp, p_cases), ('plane_text_written', bw, w_cases)):
+        if bad:
+            ck.tie_broken.append(f'correspondence {name} (Fmt/VmfPlane.v vs vmf.py)')
+            ck.extra[f'{name}_disagreement'] = repr(cases[bad[0]])
+
+
 def rich_spec(seed: int = 7) -> dict:
     """A fixed specification that contains every kind of object (used to validate the translator's tables)."""
     rng = random.Random(seed)
@@ -366,6 +569,127 @@ def validate_tables(ck: Ck, side_templates: dict, side_keys: dict) -> None:
     ck.obligation('tie:field_type_table', not wrong, f'{checked} interpolated attributes evaluated on real objects; mismatches: {wrong[:6]}')
     if wrong:
         ck.tie_broken.append('hand field-type table disagrees with real attribute types')
+    # (b2) number kinds / member kinds: the hand tables against the real attributes
+    from srctools.math import Angle
+    from srctools.vmf import UVAxis, Vec4
+    kinds = {'int': lambda v: isinstance(v, int), 'float': lambda v: isinstance(v, (int, float)) and not isinstance(v, bool),
+             'Vec': lambda v: isinstance(v, Vec), 'Angle': lambda v: isinstance(v, Angle), 'UVAxis': lambda v: isinstance(v, UVAxis),
+             'Vec4': lambda v: isinstance(v, Vec4), 'intlist': lambda v: not isinstance(v, str) and all(isinstance(x, int) for x in v)}
+    kwrong, kchecked = [], 0
+    samples = {'point': Vec(), 'i': 0, 'y': 0, 'group': 1, 'group_id': 1, 'vis_id': 1, 'fixup': next(iter(ent._fixup._fixup.values())),
+               'vert': vmf.brushes[0].sides[0]._disp_verts[0]}
+    for expr, kind in T.NUM_KINDS.items():
+        for cls, obj in inst.items():
+            try:
+                val = eval(expr, dict(samples, self=obj))
+            except Exception:
+                continue
+            if expr == 'self.target' and cls == 'Output':
+                continue
+            if expr.startswith('self.') and not any(expr in site['key'] + site['val'] for site in side_templates['sites']
+                                                    if site['fn'].split('.')[0] == cls):
+                continue          # attribute of the same name on a class that does not write it
+            kchecked += 1
+            if not kinds[kind](val):
+                kwrong.append((cls, expr, kind, type(val).__name__))
+    vert0 = vmf.brushes[0].sides[0]._disp_verts[0]
+    for member, kind in T.MEMBER_KINDS.items():
+        val = (vert0.multi_colors or [Vec()])[0] if member == 'multi_colors[i]' else getattr(vert0, member)
+        kchecked += 1
+        if not kinds[kind](val):
+            kwrong.append(('DispVertex', member, kind, type(val).__name__))
+    ck.obligation('tie:number_kind_table', not kwrong and kchecked >= 40, f'{kchecked} number-like expressions evaluated on real objects; '
+                  f'mismatches: {kwrong[:6]}')
+    if kwrong:
+        ck.tie_broken.append('hand number-kind table disagrees with real attribute types')
+    # (b3) the recorded formatter of every number against the really exported text: every number token must be a fixed
+    # point of the format recorded for its position (block, key, index within the value)
+    a = T.analyse()
+    by_pos: dict[tuple, list] = {}
+    for f in a['numfields']:
+        by_pos.setdefault((f['fn'], f['block'], f['key']), []).append(f)
+    cand: dict[str, list] = {}
+    for st in a['sites']:
+        cand.setdefault(st.block, []).append(st)
+
+    def fixed_point(tok: str, f: Any) -> bool:
+        if tok == '-0':
+            tok = '0'          # known finding text-negative-zero
+        try:
+            if f == 'I':
+                return str(int(tok)) == tok
+            if f == 'B':
+                return tok in ('0', '1')
+            x = float(tok)
+            if f == 'R':
+                return repr(x) == tok or (x == int(x) and str(int(x)) == tok)
+            if f[0] == 'F':
+                t = '%.*f' % (f[1], x + 0.0)
+                return (t.rstrip('0').rstrip('.') if '.' in t else t) == tok
+            if f[0] == 'G':
+                return '%.*g' % (f[1], x) == tok
+        except ValueError:
+            return False
+        return False
+
+    def site_regex(st: Any) -> str:
+        out = ''
+        for pc in st.val:
+            if pc.kind == 'lit':
+                out += re.escape(pc.text)
+            elif pc.cls == 'Num':
+                out += r'([-+0-9.e ]*?)'
+            elif pc.cls == 'Sep':
+                out += r'[,\x1b]'
+            else:
+                out += r'(?:.*?)'
+        return out
+    nbad: list = []
+    ntok = [0]
+    seen_pos: set = set()
+
+    def walk_nums(kv: Any, block: str) -> None:
+        for ch in kv:
+            name = ch.name
+            if ch.has_children():
+                walk_nums(ch, f'editor@{block}' if name == 'editor' else T.BLOCK_ALIAS.get(name, name))
+                continue
+            results = []
+            for st in cand.get(block, []):
+                ktxt = ''.join(pc.text for pc in st.key if pc.kind == 'lit').casefold()
+                dyn = any(pc.kind != 'lit' for pc in st.key)
+                if not (name == ktxt or (dyn and name.startswith(ktxt))):
+                    continue
+                recs = by_pos.get((st.fn, block, ktxt), [])
+                if not recs:
+                    continue
+                m = re.fullmatch(site_regex(st), ch.value, re.S)
+                if not m:
+                    continue
+                errs = []
+                for f in recs:
+                    toks = m.group(f['idx'] + 1).split()
+                    fm = f['raw']
+                    if not toks or len(toks) % len(fm):
+                        errs.append((block, name, f['idx'], f['fmts'], f'{len(toks)} numbers'))
+                        continue
+                    for j, tok in enumerate(toks):
+                        if not fixed_point(tok, fm[j % len(fm)]):
+                            errs.append((block, name, f['idx'], f['fmts'][j % len(fm)], tok))
+                            break
+                results.append((errs, len(recs), (block, ktxt)))
+            if results:
+                best = min(results, key=lambda r: len(r[0]))
+                ntok[0] += best[1]
+                seen_pos.add(best[2])
+                nbad.extend(best[0][:1])
+    walk_nums(tree, '<file>')
+    ck.count('number_groups_checked_against_recorded_format', ntok[0])
+    ck.obligation('tie:number_formats_on_exported_text', not nbad and len(seen_pos) >= 40,
+                  f'{ntok[0]} numbers at {len(seen_pos)} distinct (block, key) positions of really exported text are fixed points of the '
+                  f'format recorded for them; not so: {nbad[:5]}')
+    if nbad:
+        ck.tie_broken.append('recorded number formats disagree with the exported text')
     # (c) arity
     vert = vmf.brushes[0].sides[0]._disp_verts[0]
     bad = []
@@ -452,6 +776,12 @@ def corpus_specs() -> list[tuple[str, dict]]:
     s = mk('settings-cameras-cordons', cameras=[[[1.0, 2.0, 3.0], [4.0, 5.0, 6.0]], [[0.5, 0.25, 0.125], [0.0, 0.0, 0.0]]],
            cordons=[{'name': 'c "1"', 'mins': [0.0, 0.0, 0.0], 'maxs': [5.0, 5.0, 5.0], 'active': False}])
     s['settings'].update(cordon_enabled=True, active_cam=2, strata_inst_vis=2, quickhide_count=4, is_prefab=True)
+    # blend weights set, every other member of the optional group at its default (a presence guard on another member loses them)
+    d = U.gen_disp(rng, 0.0, 1)
+    d['multi'] = {'kind': 'alpha0', 'blend': [[1.0, 0.5, 0.0, 0.25]] * 9, 'alpha': [[0.0, 0.0, 0.0, 0.0]] * 9, 'colors': [None] * 9}
+    sd = U.gen_side_extra(rng, 0.0)
+    sd['disp'] = d
+    mk('multiblend-only-blend', brushes=[base_solid(sides=[sd] + [None] * 5)])
     return out
 
 
@@ -486,8 +816,10 @@ def feature_hist(ck: Ck, spec: dict) -> bool:
 
 
 def search(ck: Ck) -> None:
-    # quick: 450 maps; quick with a broken tie: 3000 (about 90 s); thorough: 7500
-    n = 7500 if ck.thorough else ck.budget(450, 3000)
+    # quick: 240 maps (450 until round 3; lowered to keep the quick tier below 90 s on a heavily loaded machine now that the proof side
+    # has 140 more obligations and four more correspondences; the directed corpus and the shipped files run first in any case);
+    # quick with a broken tie: 2000; thorough: 7500
+    n = 7500 if ck.thorough else ck.budget(240, 2000)
     found: dict[str, tuple[dict, str, dict]] = {}
     # Shrinking budget, counted in oracle evaluations (not wall time, so that results are reproducible): per violation key
     # and in total.  A fault in a hot path produces dozens of keys on big maps; the total keeps a failing run within minutes.
@@ -555,13 +887,16 @@ def search(ck: Ck) -> None:
 def run(ck: Ck) -> None:
     ck.rule = ('maps are generated as JSON specifications (entities with arbitrary keys/values incl. quotes, backslashes, newlines, '
                'unicode; outputs with both separators and instance forms; fixups; hidden entities/solids; brush entities; prisms and '
-               'arbitrary faces; displacements power 1-4 with per-vertex data, allowed_verts, multiblend in 4 variants; nested '
+               'arbitrary faces; displacements power 1-4 with per-vertex data, allowed_verts, multiblend in 6 variants (incl. all-zero blend and blend-only); nested '
                'visgroups; groups; membership sets built by add/discard histories; cameras; cordons; Strata viewports/points; options '
                'minimal/disp_multiblend/preserve_ids) and realised through the public API; a map is non-trivial when it has at least '
                'one entity, brush, visgroup, camera or cordon; distinct by full specification. Correspondence cases: strings over an '
                'alphabet rich in escapes (non-trivial = contains quote/backslash/newline), doubles with decimal-boundary values '
                '(non-trivial = non-integral); output values of 3..7 fields over an alphabet holding both separators (all distinct values count); '
                'fixup lists with duplicate/zero/negative indexes and equal names (non-trivial = some index repeated). '
+               'Number-group texts (Vec/Angle/UVAxis/plane triple): tokens from a pool of pairwise different numbers, brackets of all four '
+               'kinds, doubled and mismatched brackets, extra white space, 1..6 tokens, 2..4 plane groups (non-trivial = has a bracket; every '
+               'UVAxis and plane text counts). '
                'Shipped files: every tests/**/*.vmf x preserve_ids x minimal.')
     ck.trusted.append('hand tables in translate/c06_vmf.py (field types, call graph of export methods, parse roots, vertex arity), '
                       'validated on real objects / really exported text on every run')
@@ -569,6 +904,8 @@ def run(ck: Ck) -> None:
     ck.trusted.append('translate/c06_prog.py: extraction of the block structure of the export methods (shares the call table and the '
                       'template classification with c06_vmf.py); hand models of Output.parse / EntityFixup.__init__ in rocq/Fmt/VmfFields.v '
                       '(tied by differential correspondence and by the generated separators / field order)')
+    ck.trusted.append('translate/c06_lite.py: data-flow analysis of the parse methods and constructors (object-level table), hand tables CLASSES, '
+                      'ARRAY_ATTRS, ALIAS_ATTRS; the hand table of the precision class each written number must keep (REQUIRED_* in checks/c06.py)')
     ck.trusted.append('the C01 KeyValues1 tokenizer/parser model rocq/KV/* (imported read-only; tied to keyvalues.py/tokenizer.py by check C01)')
     ck.assumptions += [
         'CPython float formatting (%.6f, %g, repr) is correctly rounded and its output contains only digits, sign, point, exponent, '
@@ -579,7 +916,7 @@ def run(ck: Ck) -> None:
         'str.split, str.join, int() on digit strings and str.casefold behave as modelled (split_on, join, parse_digits; casefold enters '
         'the theorems as the section variables is_inst / same_var)',
     ]
-    oks = [ck.translate(name, fn) for name, fn in {**T.GEN, **P.GEN}.items()]
+    oks = [ck.translate(name, fn) for name, fn in {**T.GEN, **P.GEN, **L.GEN}.items()]
     # C01's generated parser sites (read-only use of C01's translator): premise pcfg_ok of the block theorem
     oks.append(ck.translate('KVSer_gen', c01_kvser.translate))
     tr = ck.extra.get('translated', {})
@@ -612,7 +949,34 @@ def run(ck: Ck) -> None:
         for pw in (1, 2, 3, 4):
             obs[f'disp_row_keys_read:power{pw}'] = (f'(forallb (fun p => rows_recognised gen_rowreader p (Z.to_nat (gen_disp_size {pw}))) '
                                                     f'gen_row_prefixes && negb (Nat.eqb (List.length gen_row_prefixes) 0))%bool')
-        obs['output_separators_agree'] = '((gen_out_esc =? ESC) && (gen_out_write_comma =? COMMA) && (gen_out_read_comma =? COMMA))%N%bool'
+        obs['output_separators_agree'] = ('(((gen_out_esc =? ESC) && (gen_out_write_comma =? COMMA) && (gen_out_read_comma =? COMMA) && '
+                                          '(gen_out_write_esc =? ESC) && (gen_out_read_esc =? ESC))%N && negb gen_out_flag_when_esc && '
+                                          'gen_out_flag_when_comma)%bool')
+        # optional array groups (round 3): the multiblend arrays are written exactly when the member carried by the array
+        # named "multiblend" is non-default at some vertex (and its default is falsy)
+        obs['optional_arrays_guard:multiblend'] = ('(forallb (optgroup_ok "multiblend") gen_opt_groups && '
+                                                   'Nat.eqb (List.length gen_opt_groups) 1)%bool')
+        # number formats per field (round 3): every number of every written line is written by a format that keeps the
+        # precision the property demands of it
+        nfields = tr.get('VmfNumFmt_gen', {}).get('fields', [])
+        triples = sorted({(f['block'], f['key'], f['idx']) for f in nfields})
+        for b, k, i in triples:
+            obs[f'number_format:{b}/{k or "<name>"}#{i}'] = f'field_meets "{b}" "{k}" {i}%N {required_class(b, k, i)} num_fields'
+        for b, k, i in sorted(REQUIRED_SIG6 | REQUIRED_EXACT):
+            obs.setdefault(f'number_format:{b}/{k or "<name>"}#{i}', f'field_meets "{b}" "{k}" {i}%N {required_class(b, k, i)} num_fields')
+        obs['number_fields_complete'] = f'({len(REQUIRED_SIG6 | REQUIRED_EXACT)} <=? List.length num_fields)%nat'
+        for f in nfields:
+            ck.hist('number_format', '+'.join(sorted(set(f['fmts']))) + '->' + required_class(f['block'], f['key'], f['idx']))
+        # object level (round 3): every written key is read into exactly the attributes it was computed from; no attribute the
+        # reader fills is forgotten by the writer; displacement flag tables are inverse on every DispFlag value
+        lite = tr.get('VmfLite_gen', {}).get('classes', {})
+        for cname in sorted(lite):
+            obs[f'fields_paired:{cname}'] = f'lite_paired lite_{cname}'
+            obs[f'attrs_all_written:{cname}'] = f'lite_attrs_written lite_{cname}'
+            ck.hist('object_level_written_keys', cname, len(lite[cname]['written']))
+        obs['object_classes_complete'] = f'({len(L.CLASSES)} <=? List.length lite_classes)%nat'
+        obs['disp_flags_tables_inverse'] = 'flags_tables_ok gen_flags_written gen_flags_t2c gen_flags_sub gen_flags_count'
+        obs['disp_flags_all_values'] = '(16 <=? gen_flags_count)%nat'
         obs['output_field_count_and_recombination'] = '(Nat.eqb gen_out_exact_fields 5 && Nat.eqb gen_out_recombine_from 6)%bool'
         obs['output_field_order_agrees'] = ('(nlist_eqb gen_out_write_order (0 :: 1 :: 2 :: 3 :: 4 :: nil)%N && nlist_eqb gen_out_read_order (0 :: 1 :: 2 :: 3 :: 4 :: nil)%N)%bool')
         res = ck.instance_obligations(IMPORTS, obs, name='c06')
@@ -629,6 +993,8 @@ def run(ck: Ck) -> None:
         corr_escape(ck)
         corr_rounding(ck)
         corr_output_fixup(ck)
+        corr_tokens(ck)
+        corr_plane(ck)
         try:
             validate_tables(ck, tr.get('VmfTemplates_gen', {}), tr.get('VmfKeys_gen', {}))
         except Exception as e:     # the rich map itself may fail to export when the source is broken: the search reports that
@@ -645,7 +1011,20 @@ def run(ck: Ck) -> None:
         ck.explain('instance:programs_all_ok')
     if any(k.startswith(('field:', 'text:', 'parse-error:', 'file:')) for k in keys):
         ck.explain('instance:keys_read:')
+        ck.explain('instance:fields_paired:')
+        ck.explain('instance:attrs_all_written:')
+        ck.explain('translate:VmfLite_gen')
         ck.explain('tie:')
+    if any('multiblend' in k or 'alphablend' in k for k in keys):
+        ck.explain('instance:optional_arrays_guard')
+    if any('disp.coll' in k or 'disp.subdiv' in k or 'dispinfo' in k or k.startswith(('export-error', 'file:export-error')) for k in keys):
+        ck.explain('instance:disp_flags_')
+        ck.explain('translate:VmfFlags_gen')
+    if any(k.startswith(('field:', 'text:', 'file:', 'parse-error:')) for k in keys):
+        ck.explain('correspondence:vec_text_parse')
+        ck.explain('correspondence:uvaxis_text_parse')
+        ck.explain('correspondence:number_group_text_written')
+        ck.explain('correspondence:plane_text_')
     if any('isplacement' in k or 'disp' in k for k in keys):
         ck.explain('instance:disp_shape')
         ck.explain('instance:disp_arrays_complete')
@@ -653,6 +1032,17 @@ def run(ck: Ck) -> None:
         ck.explain('translate:VmfFieldsCfg_gen')
     if any(k.startswith(('parse-error:ValueError', 'file:parse-error:ValueError')) for k in keys):
         ck.explain('instance:disp_row_keys_read')      # an unreadable row index surfaces as ValueError from Side._iter_disp_row
+    # a failed number_format obligation is explained by a field/text violation at that position of the format
+    alias = {'rotation': ['.rot'], 'connections': ['outputs.delay', 'outputs.times', 'connections'], 'lightmapscale': ['lightmap'],
+             'smoothing_groups': ['smooth'], 'startposition': ['disp.pos'], 'box': ['cordons'], 'point_data': ['strata_points']}
+    for o in ck.obligations:
+        m = re.fullmatch(r'instance:number_format:(?:editor@)?([^/]*)/([^#]*)#\d+', o['name'])
+        if m and not o['ok']:
+            marks = [x for x in (m.group(1), m.group(2)) if x and x != '<name>']
+            marks += [y for x in list(marks) for y in alias.get(x, [])]
+            if any(k.startswith(('field:', 'text:', 'file:field:', 'file:text:')) and any(x in k for x in marks) for k in keys):
+                ck.explain(o['name'])
+                ck.explain('tie:number_formats_on_exported_text')
     if any('outputs' in k or 'connections' in k or 'Bad output value' in k for k in keys):
         ck.explain('translate:VmfFieldsCfg_gen')
         ck.explain('instance:output_')
